@@ -1094,6 +1094,14 @@ def two_loop_backpressure(ctx, n_writers: int, line_size: int, seed: int, loops:
             transport, port = loop.run_until_complete(
                 backpressure_case(ctx, n_writers, line_size, seed + index, transport, port, loops, seed))
             ctx.clause("transport-reused-under-new-event-loop") if index else None
+        except OSError as err:
+            # the peer's port of the first session was taken by another process in between (busy machine): not a verdict
+            import errno
+
+            if err.errno != errno.EADDRINUSE:
+                raise
+            ctx.skip("two-loop-backpressure", str(err))
+            return
         finally:
             loop.run_until_complete(loop.shutdown_asyncgens())
             loop.close()
@@ -1271,12 +1279,11 @@ def abandoned_connection_case(ctx, variant: str) -> None:
     port = listener.getsockname()[1]
     spare = socket.socket()
     spare.bind(("127.0.0.1", 0))
-    closed_port = spare.getsockname()[1]
-    spare.close()
+    closed_port = spare.getsockname()[1]  # stays bound and never listens: refused, and no other process can take it
     case = {"engine": "abandoned-connection", "variant": variant}
     ctx.case(("abandoned-connection", variant), nontrivial=True, sample=case)
     transport = TCPTransport("127.0.0.1", port)
-    peers = []
+    peers = [spare]
     try:
         async def first() -> None:
             await asyncio.wait_for(transport.connect(), 20)
@@ -1429,8 +1436,7 @@ async def misuse_cases(ctx) -> None:
 
     sock = socket.socket()
     sock.bind(("127.0.0.1", 0))
-    free_port = sock.getsockname()[1]
-    sock.close()
+    free_port = sock.getsockname()[1]  # stays bound (never listening) while the cases run: refused, and not reusable
     for name, factory in (("tcp", lambda: TCPTransport("127.0.0.1", free_port)),
                           ("serial", lambda: SerialTransport("/dev/vf-does-not-exist"))):
         transport = factory()
